@@ -12,7 +12,8 @@ LEVEL = 'model_checking'
 
 ASSUME = [
     'bounded catalogue: one-cycle chain (a => b => c), AND-diamond '
-    '(a => b & c => d), OR-diamond and a two-cycle inter-cycle chain '
+    '(a => b & c => d), OR-diamond, a child reached through several arrows '
+    '(a:started => b, a => b, c => b) and a two-cycle inter-cycle chain '
     '(a[-P1] => a => b); integer cycling; localhost jobs; every job succeeds',
     '`remove_tasks` of one instance per command, without --flow and with '
     '--flow=N, offered for every instance of the graph at every main-loop '
@@ -45,6 +46,8 @@ SHAPES = {
     'diamond': [E(A(a), b), E(A(a), c), E(AND(A(b), A(c)), d)],
     'ordiamond': [E(A(a), b), E(A(a), c), E(OR(A(b), A(c)), d)],
     'prevchain': [E(A(a, -1), a), E(A(a), b)],
+    # the child depends on the target through several graph arrows
+    'arrows': [E(A(a, 0, 'started'), b), E(A(a), b), E(A(c), b)],
 }
 
 
@@ -70,6 +73,7 @@ def rows(tier: str):
         ('diamond-rm-bd', 'diamond', 1,
          [[rm('1/b'), rm('1/d', '1'), rm('1/a', '1')]]),
         ('ordiamond-rm-b', 'ordiamond', 1, [[rm('1/b')]]),
+        ('arrows-rm-a', 'arrows', 1, [[rm('1/a')]]),
         ('diamond-forced-rm', 'diamond', 1,
          [[setpre('1/d', ['1/b:succeeded'])], [rm('1/b'), rm('1/c')]]),
         ('chain-flow2-rm', 'chain', 1,
